@@ -211,13 +211,16 @@ def conj(cs):
     return r
 
 
-def tables_inv_post(self):
-    """the table invariant as three obligations (keys+ranges, distinct within a table, distinct across tables)"""
+def tables_inv_post(self, self0):
+    """preservation of the table invariant: if it held at entry (self0 = old.self) it holds now; stated as three
+    obligations (keys+ranges, distinct within a table, distinct across tables).  The invariant is a hypothesis of these
+    clauses only, so the other clauses are proved without it (they do not depend on it)"""
+    before = conj(tables_inv(self0))
     cs = tables_inv(self)
-    return [conj(cs[:10]), conj(cs[10:13]), conj(cs[13:])]
+    return [implies(before, conj(cs[:10])), implies(before, conj(cs[10:13])), implies(before, conj(cs[13:]))]
 
 
-INV_POST_NAMES = ['inv-keys-and-handle-ranges', 'inv-handles-distinct-within-each-table', 'inv-handles-distinct-across-tables']
+INV_POST_NAMES = ['inv-preserved-keys-and-handle-ranges', 'inv-preserved-handles-distinct-within-each-table', 'inv-preserved-handles-distinct-across-tables']
 INV_NAMES = [
     'inv-le-keyed-by-peer', 'inv-classic-keyed-by-peer', 'inv-sco-keyed-by-peer', 'inv-central-cis-keyed-by-handle', 'inv-peripheral-cis-keyed-by-handle',
     'inv-le-handle-range', 'inv-classic-handle-range', 'inv-sco-handle-range', 'inv-central-cis-handle-range', 'inv-peripheral-cis-handle-range',
@@ -246,6 +249,24 @@ def ctl_send(ghost, packet):
         ghost.dc_status = packet.status
         ghost.dc_handle = packet.connection_handle
         ghost.dc_reason = packet.reason
+    if isinstance(packet, hci.HCI_Connection_Request_Event):
+        ghost.creq = ghost.creq + 1
+        ghost.creq_peer = packet.bd_addr
+        ghost.creq_link_type = packet.link_type
+    if isinstance(packet, hci.HCI_Connection_Complete_Event):
+        ghost.ccl = ghost.ccl + 1
+        ghost.ccl_status = packet.status
+        ghost.ccl_handle = packet.connection_handle
+        ghost.ccl_peer = packet.bd_addr
+    if isinstance(packet, hci.HCI_Synchronous_Connection_Complete_Event):
+        ghost.sync = ghost.sync + 1
+        ghost.sync_status = packet.status
+        ghost.sync_handle = packet.connection_handle
+        ghost.sync_peer = packet.bd_addr
+    if isinstance(packet, hci.HCI_LE_CIS_Request_Event):
+        ghost.cisreq = ghost.cisreq + 1
+        ghost.cisreq_acl_handle = packet.acl_connection_handle
+        ghost.cisreq_handle = packet.cis_connection_handle
     if isinstance(packet, hci.HCI_AclDataPacket):
         ghost.acl = ghost.acl + 1
         ghost.acl_handle = packet.connection_handle
@@ -259,6 +280,10 @@ SEND_GHOST = dict(
     cc=Int, cc_status=Int, cc_handle=Int, cc_role=Int, cc_peer=ADDR,
     dc=Int, dc_status=Int, dc_handle=Int, dc_reason=Int,
     acl=Int, acl_handle=Int, acl_pb=Int, acl_len=Int, acl_data=Bytes,
+    creq=Int, creq_peer=ADDR, creq_link_type=Int,
+    ccl=Int, ccl_status=Int, ccl_handle=Int, ccl_peer=ADDR,
+    sync=Int, sync_status=Int, sync_handle=Int, sync_peer=ADDR,
+    cisreq=Int, cisreq_acl_handle=Int, cisreq_handle=Int,
 )
 SEND_MOD = ['ghost.' + n for n in SEND_GHOST]
 
@@ -372,7 +397,7 @@ contract(
     params=dict(self=C, connection=Inst(CONN_OBJ), reason=IntRange(0, 255)),
     ghost=SEND_GHOST,
     # the connection is the table entry of its peer address (callers pass le_connections.get(sender) / the entry found by handle)
-    requires=lambda self, connection: tables_inv(self) + [mhas(self.le_connections, connection.peer_address), h_of(self.le_connections, connection.peer_address) == connection.handle],
+    requires=lambda self, connection: [mhas(self.le_connections, connection.peer_address), h_of(self.le_connections, connection.peer_address) == connection.handle],
     ensures=lambda self, connection, reason, ghost, old: [
         ghost.dc == old.ghost.dc + 1,
         ghost.sent == old.ghost.sent + 1,
@@ -380,8 +405,8 @@ contract(
         not mhas(self.le_connections, connection.peer_address),
         others_unchanged(self.le_connections, old.self.le_connections, connection.peer_address),
         no_new_keys(self.le_connections, old.self.le_connections, connection.peer_address),
-    ] + tables_inv(self),
-    ensures_names=['one-disconnection-event', 'nothing-else-sent', 'event-names-the-connection', 'entry-removed', 'other-entries-untouched', 'no-entry-added'] + INV_NAMES,
+    ] + tables_inv_post(self, old.self),
+    ensures_names=['one-disconnection-event', 'nothing-else-sent', 'event-names-the-connection', 'entry-removed', 'other-entries-untouched', 'no-entry-added'] + INV_POST_NAMES,
     modifies=['self.le_connections', 'ghost.sent', 'ghost.dc', 'ghost.dc_status', 'ghost.dc_handle', 'ghost.dc_reason'],
     native_setup=nat_fix,
 )
@@ -428,7 +453,7 @@ def connect_ind_contract(n):
         return r
 
     def requires(self, packet):
-        return tables_inv(self) + own_addresses_linked(self) + sets_linked(self, n) + [self.link is not None]
+        return own_addresses_linked(self) + sets_linked(self, n) + [self.link is not None]
 
     def ensures(self, packet, ghost, old):
         le, le0 = self.le_connections, old.self.le_connections
@@ -449,7 +474,7 @@ def connect_ind_contract(n):
             implies(hit, others_unchanged(le, le0, peer) and no_new_keys(le, le0, peer)),
             # the advertiser that accepted stops advertising (legacy has priority, as in the code)
             implies(legacy_hit(old.self, packet), not self.le_legacy_advertiser.enabled),
-        ] + tables_inv_post(self)
+        ] + tables_inv_post(self, old.self)
 
     names = ['bystander-sends-nothing', 'bystander-table-untouched', 'bystander-handle-untouched', 'one-connection-complete-for-the-initiator',
              'entry-for-the-initiator-with-advertiser-address', 'entry-role-transport-handle', 'handle-was-unused-in-every-table', 'other-entries-untouched',
@@ -498,7 +523,8 @@ def create_le_ensures(self, peer_address, ghost, old):
     fresh = not mhas(le0, peer_address)
     return [
         # already connected to that peer: nothing happens
-        implies(not fresh, ghost.sent == old.ghost.sent and ghost.adv_sent == old.ghost.adv_sent and others_unchanged(le, le0, peer_address) and h_of(le, peer_address) == h_of(le0, peer_address)),
+        implies(not fresh, ghost.sent == old.ghost.sent and ghost.cc == old.ghost.cc and ghost.adv_sent == old.ghost.adv_sent and ghost.ci == old.ghost.ci and others_unchanged(le, le0, peer_address)
+                and no_new_keys(le, le0, peer_address) and mhas(le, peer_address) and h_of(le, peer_address) == h_of(le0, peer_address)),
         # otherwise one CONNECT_IND goes on the air, from the requested own address to the requested advertiser
         implies(fresh and self.link is not None, ghost.ci == old.ghost.ci + 1 and ghost.adv_sent == old.ghost.adv_sent + 1 and ghost.ci_initiator == me and ghost.ci_advertiser == peer_address),
         # the host is told about exactly one connection, as central, to that peer
@@ -509,7 +535,7 @@ def create_le_ensures(self, peer_address, ghost, old):
         implies(fresh, unused(old.self, ghost.cc_handle)),
         implies(fresh, others_unchanged(le, le0, peer_address) and no_new_keys(le, le0, peer_address)),
         implies(fresh, self.pending_le_connection is None),
-    ] + tables_inv_post(self)
+    ] + tables_inv_post(self, old.self)
 
 
 CREATE_LE_NAMES = ['already-connected-is-a-no-op', 'one-connect-ind-from-own-address-to-the-advertiser', 'one-connection-complete-as-central', 'entry-for-the-advertiser-with-own-address',
@@ -518,14 +544,15 @@ CREATE_LE_NAMES = ['already-connected-is-a-no-op', 'one-connect-ind-from-own-add
 
 def create_le_exhausted(self, peer_address, ghost, old):
     le, le0 = self.le_connections, old.self.le_connections
-    return [ghost.sent == old.ghost.sent, ghost.adv_sent == old.ghost.adv_sent, others_unchanged(le, le0, peer_address), iff(mhas(le, peer_address), mhas(le0, peer_address))]
+    return [ghost.sent == old.ghost.sent, ghost.cc == old.ghost.cc, ghost.adv_sent == old.ghost.adv_sent, ghost.ci == old.ghost.ci, others_unchanged(le, le0, peer_address),
+            iff(mhas(le, peer_address), mhas(le0, peer_address))]
 
 
 CREATE_LE = dict(
     params=dict(self=Inst(CTRL_INIT, pending_le_connection=OneOf(Inst(CREATE), Inst(EXT_CREATE))), peer_address=ADDR),
     ghost=dict(SEND_GHOST, **LINK_GHOST),
     # called by on_advertising_pdu for the advertiser the pending LE Create Connection command names (never without one)
-    requires=lambda self, peer_address: tables_inv(self) + [self.pending_le_connection.peer_address == peer_address],
+    requires=lambda self, peer_address: [self.pending_le_connection.peer_address == peer_address],
     ensures=create_le_ensures,
     ensures_names=CREATE_LE_NAMES,
     raises={StopIteration: create_le_exhausted},
@@ -917,7 +944,7 @@ def connection_pair_established(central, peripheral, ghost):
 def pair_requires(central, peripheral, ghost):
     if central.pending_le_connection is None:
         return [False]  # an LE Create Connection command is pending at the central
-    return tables_inv(central) + tables_inv(peripheral) + own_addresses_linked(peripheral) + [
+    return own_addresses_linked(peripheral) + [
         ghost.cc == 0,
         central.link is not None,
         peripheral.link is not None,
@@ -975,5 +1002,357 @@ lemma(
     loop_modifies={('LocalLink.find_le_controller', 1): []},
     modifies=['link.controllers', 'ghost.scheduled'] + SEND_MOD,
     stubs=LOOP_STUBS,
+    native_setup=nat_fix,
+)
+
+
+# ===========================================================================
+# what the abstraction of hci.Address to an equality class relies on (proved on the real __eq__ / __hash__)
+# ===========================================================================
+ADDRESS = 'bumble.hci:Address'
+model(ADDRESS, fields=dict(address_bytes=Bytes, address_type=OneOf(*[int(t) for t in hci.AddressType])))
+A = Inst(ADDRESS)
+
+
+def addr_class(a):
+    """the equality class of an address: its bytes and whether it is public"""
+    return (a.address_bytes, a.address_type == 0 or a.address_type == 2)
+
+
+def address_eq_is_an_equivalence(a, b, c):
+    ab = a == b
+    assert ab == (a.address_bytes == b.address_bytes and (a.address_type in (0, 2)) == (b.address_type in (0, 2))), 'eq-compares-bytes-and-publicness'
+    assert a == a, 'reflexive'
+    assert (b == a) == ab, 'symmetric'
+    if ab and b == c:
+        assert a == c, 'transitive'
+    if ab:
+        assert hash(a) == hash(b), 'equal-addresses-hash-alike'
+    assert (a != b) == (not ab), 'ne-is-not-eq'
+
+
+def m_hash(ex, v):
+    """hash(x): the class's __hash__ for instances; for byte strings an uninterpreted function of the content"""
+    from pyvc.values import Ref, Obj
+    from pyvc.seqspec import q_uf
+
+    if isinstance(v, Ref) and isinstance(ex.obj(v), Obj):
+        fn = getattr(ex.obj(v).cls, '__hash__', None)
+        return ex.call(ex.func_of_native(fn), [v], {})
+    return q_uf(ex, ['hash', v], {})
+
+
+from pyvc import models_calls as _MC  # noqa: E402
+
+_MC.NATIVE_MODELS[hash] = m_hash
+
+lemma(
+    'address_eq_is_an_equivalence',
+    address_eq_is_an_equivalence,
+    prop='C06',
+    params=dict(a=A, b=A, c=A),
+    inline=['Address.__eq__', 'Address.__hash__', 'Address.is_public'],
+)
+
+
+# ===========================================================================
+# controller.Connection: what a connection hands to the link
+# ===========================================================================
+def link_acl(ghost, sender_controller, destination_address, transport, data):
+    ghost.tx = ghost.tx + 1
+    ghost.tx_sender = sender_controller
+    ghost.tx_destination = destination_address
+    ghost.tx_transport = transport
+    ghost.tx_data = data
+
+
+def link_ll(ghost, sender_address, receiver_address, packet):
+    ghost.tx = ghost.tx + 1
+    ghost.tx_source = sender_address
+    ghost.tx_destination = receiver_address
+    ghost.tx_packet = packet
+
+
+model('ghost:Link#conn', fields={}, methods={'send_acl_data': Callback('send_acl_data', effect=link_acl), 'send_ll_control_pdu': Callback('send_ll_control_pdu', effect=link_ll)})
+CONN_FULL = 'bumble.controller:Connection'
+model(CONN_FULL, fields=dict(controller=Inst(CTRL_ADDR), handle=Int, role=IntRange(0, 1), self_address=ADDR, peer_address=ADDR, link=LOpt(Inst('ghost:Link#conn')),
+                             transport=OneOf(LE, BR_EDR), link_type=Int))
+TX_GHOST = dict(tx=Int, tx_sender=Opt(Inst(CTRL_ADDR)), tx_source=ADDR, tx_destination=ADDR, tx_transport=Int, tx_data=Bytes, tx_packet=Opt(Opaque('pdu')))
+TX_MOD = ['ghost.' + n for n in TX_GHOST]
+
+contract(
+    'bumble.controller:Connection.on_acl_pdu',
+    prop='C06',
+    params=dict(self=Inst(CONN_FULL), pdu=Bytes),
+    ghost=TX_GHOST,
+    ensures=lambda self, pdu, ghost, old: [
+        ghost.tx == old.ghost.tx + (1 if self.link is not None else 0),
+        implies(self.link is not None, same(ghost.tx_sender, self.controller) and ghost.tx_destination == self.peer_address and ghost.tx_transport == self.transport and ghost.tx_data == pdu),
+    ],
+    ensures_names=['handed-to-the-link-once', 'from-this-controller-to-the-peer-address-of-this-connection-unchanged'],
+    modifies=TX_MOD,
+    native_setup=nat_fix,
+)
+contract(
+    'bumble.controller:Connection.send_ll_control_pdu',
+    prop='C06',
+    params=dict(self=Inst(CONN_FULL), packet=Opaque('pdu')),
+    ghost=TX_GHOST,
+    ensures=lambda self, packet, ghost, old: [
+        ghost.tx == old.ghost.tx + (1 if self.link is not None else 0),
+        implies(self.link is not None, ghost.tx_source == self.self_address and ghost.tx_destination == self.peer_address and ghost.tx_packet == packet),
+    ],
+    ensures_names=['handed-to-the-link-once', 'from-the-own-address-of-this-connection-to-its-peer-address'],
+    modifies=TX_MOD,
+    native_setup=nat_fix,
+)
+
+
+# ===========================================================================
+# advertising: what an advertiser puts on the air, what a scanner reports, when an initiator connects
+# ===========================================================================
+LEG_REPORT = hci.HCI_LE_Advertising_Report_Event
+EXT_REPORT = hci.HCI_LE_Extended_Advertising_Report_Event
+IS_ADV, IS_SCAN_RSP = 1, 2
+
+
+def report_kind(packet):
+    """1: advertising report, 2: scan response report, 0: something else"""
+    if isinstance(packet, LEG_REPORT):
+        t = packet.reports[0].event_type
+        return IS_ADV if t == LEG_REPORT.EventType.ADV_IND else (IS_SCAN_RSP if t == LEG_REPORT.EventType.SCAN_RSP else 0)
+    if isinstance(packet, EXT_REPORT):
+        t = packet.reports[0].event_type
+        return IS_ADV if t == EXT_REPORT.EventType.CONNECTABLE_ADVERTISING else (IS_SCAN_RSP if t == EXT_REPORT.EventType.SCAN_RESPONSE else 0)
+    return 0
+
+
+def scan_send(ghost, packet):
+    """Controller.send_hci_packet of a scanner / initiator: advertising reports and connection events"""
+    ctl_send(ghost, packet)
+    k = report_kind(packet)
+    if k == IS_ADV:
+        ghost.adv_reports = ghost.adv_reports + 1
+        ghost.adv_report_address = packet.reports[0].address
+        ghost.adv_report_data = packet.reports[0].data
+        ghost.adv_report_extended = isinstance(packet, EXT_REPORT)
+    if k == IS_SCAN_RSP:
+        ghost.rsp_reports = ghost.rsp_reports + 1
+        ghost.rsp_report_address = packet.reports[0].address
+        ghost.rsp_report_data = packet.reports[0].data
+        ghost.rsp_report_extended = isinstance(packet, EXT_REPORT)
+
+
+REPORT_GHOST = dict(adv_reports=Int, adv_report_address=ADDR, adv_report_data=Bytes, adv_report_extended=Bool,
+                    rsp_reports=Int, rsp_report_address=ADDR, rsp_report_data=Bytes, rsp_report_extended=Bool)
+CTRL_SCAN = CTRL + '-scan'
+model(
+    CTRL_SCAN,
+    fields=dict(_BASE_FIELDS, link=LOpt(Inst('ghost:Link')), pending_le_connection=Opt(OneOf(Inst(CREATE), Inst(EXT_CREATE))), le_scan_enable=Bool,
+                le_scan_type=IntRange(0, 1), le_features=IntRange(0, (1 << 64) - 1)),
+    methods={'send_hci_packet': Callback('send_hci_packet', effect=scan_send)},
+)
+# the advertising PDU as it travels on the virtual link.  `scan_response_data` is what the advertiser would answer a
+# SCAN_REQ with: the unchanged tree has no such field on the PDU (the data never leaves the advertiser), which is
+# exactly what the scan-response clauses below detect
+ADV_IND = 'bumble.ll:AdvInd'
+ADV_EXT_IND = 'bumble.ll:AdvExtInd'
+model(ADV_IND, fields=dict(advertiser_address=ADDR, data=Bytes, scan_response_data=Bytes))
+model(ADV_EXT_IND, fields=dict(advertiser_address=ADDR, data=Bytes, scan_response_data=Bytes, target_address=LOpt(ADDR)))
+EXT_ADV_FEATURE = int(hci.LeFeatureMask.LE_EXTENDED_ADVERTISING)
+ACTIVE_SCAN = 1
+
+
+def wants(self, pdu):
+    """this controller has an LE Create Connection pending for exactly that advertiser"""
+    return self.pending_le_connection is not None and self.pending_le_connection.peer_address == pdu.advertiser_address
+
+
+def wants0(self0, pdu):
+    if self0.pending_le_connection is None:
+        return False
+    return self0.pending_le_connection.peer_address == pdu.advertiser_address
+
+
+def adv_pdu_ensures(self, pdu, ghost, old):
+    scanning = old.self.le_scan_enable
+    connect = wants0(old.self, pdu) and not mhas(old.self.le_connections, pdu.advertiser_address)
+    extended = (self.le_features // EXT_ADV_FEATURE) % 2 == 1
+    return [
+        # a scanner reports the advertisement once, with the advertiser's address and its advertising data byte for byte
+        ghost.adv_reports == old.ghost.adv_reports + (1 if scanning else 0),
+        implies(scanning, ghost.adv_report_address == pdu.advertiser_address and ghost.adv_report_data == pdu.data and ghost.adv_report_extended == extended),
+        # a scan response is reported only when scanning actively ...
+        ghost.rsp_reports == old.ghost.rsp_reports + (1 if scanning and self.le_scan_type == ACTIVE_SCAN else 0),
+        # ... and carries the advertiser's scan-response data byte for byte
+        implies(ghost.rsp_reports > old.ghost.rsp_reports, ghost.rsp_report_address == pdu.advertiser_address and ghost.rsp_report_data == pdu.scan_response_data),
+        # an initiator connects to the advertiser it asked for and to nobody else
+        ghost.cc == old.ghost.cc + (1 if connect else 0),
+        implies(connect, ghost.cc_peer == pdu.advertiser_address and ghost.cc_role == CENTRAL and mhas(self.le_connections, pdu.advertiser_address)),
+        implies(not connect, others_unchanged(self.le_connections, old.self.le_connections, pdu.advertiser_address) and no_new_keys(self.le_connections, old.self.le_connections, pdu.advertiser_address)
+                and iff(mhas(self.le_connections, pdu.advertiser_address), mhas(old.self.le_connections, pdu.advertiser_address)) and ghost.ci == old.ghost.ci),
+    ] + tables_inv_post(self, old.self)
+
+
+ADV_PDU_NAMES = ['one-advertising-report-iff-scanning', 'advertising-report-carries-address-and-advertising-data', 'scan-response-report-iff-scanning-actively',
+                 'scan-response-report-carries-the-scan-response-data', 'connects-iff-this-advertiser-was-asked-for', 'connection-is-to-that-advertiser',
+                 'otherwise-no-connection-attempt'] + INV_POST_NAMES
+
+for _pdu, _pname in ((ADV_IND, 'AdvInd'), (ADV_EXT_IND, 'AdvExtInd')):
+    contract(
+        'bumble.controller:Controller.on_advertising_pdu',
+        key=f'bumble.controller:Controller.on_advertising_pdu@{_pname}',
+        prop='C06',
+        params=dict(self=Inst(CTRL_SCAN), pdu=Inst(_pdu)),
+        ghost=dict(SEND_GHOST, **LINK_GHOST, **REPORT_GHOST),
+        ensures=adv_pdu_ensures,
+        ensures_names=ADV_PDU_NAMES,
+        raises={StopIteration: lambda self, pdu, ghost, old: [ghost.cc == old.ghost.cc]},
+        modifies=['self.le_connections', 'self.pending_le_connection'] + SEND_MOD + ['ghost.' + n for n in LINK_GHOST] + ['ghost.' + n for n in REPORT_GHOST],
+        uses=['bumble.controller:Controller.create_le_connection'],
+        inline=['HCI_Dataclass_Object.__post_init__'],
+        # HCI_Object.fields_from_dataclass: the field table of a report object, reflection used only by the codec (C01)
+        stubs={hci.HCI_Object.__dict__['fields_from_dataclass'].__func__: Callback('fields_from_dataclass', returns=Opaque('fieldspec'))},
+        native_setup=nat_fix,
+    )
+
+
+# ===========================================================================
+# BR/EDR twins and the other creators of handles
+# ===========================================================================
+CTRL_CLASSIC = ctrl_model('-classic', link=LOpt(Inst('ghost:Link')), classic_allow_role_switch=Bool)
+ACL_LINK = int(hci.HCI_Connection_Complete_Event.LinkType.ACL)
+SUCCESS = int(hci.HCI_ErrorCode.SUCCESS)
+
+
+def sco_others_unchanged(t, t0, key):
+    return all_keys(t0, lambda k: implies(k != key, mhas(t, k) and h_of(t, k) == h_of(t0, k) and mget(t, k, 'peer_address') == mget(t0, k, 'peer_address')))
+
+
+def classic_request_ensures(self, peer_address, link_type, ghost, old):
+    cl, cl0, sco, sco0 = self.classic_connections, old.self.classic_connections, self.sco_links, old.self.sco_links
+    acl = link_type == ACL_LINK
+    return [
+        # the host is asked exactly once, for that peer
+        ghost.creq == old.ghost.creq + 1 and ghost.sent == old.ghost.sent + 1 and ghost.creq_peer == peer_address and ghost.creq_link_type == link_type,
+        # a placeholder (handle 0: not live yet) for that peer, as peripheral, under this controller's BD_ADDR
+        implies(acl, mhas(cl, peer_address) and h_of(cl, peer_address) == 0 and mget(cl, peer_address, 'peer_address') == peer_address
+                and mget(cl, peer_address, 'self_address') == self._public_address and mget(cl, peer_address, 'role') == PERIPHERAL and mget(cl, peer_address, 'transport') == BR_EDR),
+        implies(acl, others_unchanged(cl, cl0, peer_address) and no_new_keys(cl, cl0, peer_address)),
+        implies(not acl, mhas(sco, peer_address) and h_of(sco, peer_address) == 0 and mget(sco, peer_address, 'peer_address') == peer_address),
+        implies(not acl, sco_others_unchanged(sco, sco0, peer_address) and no_new_keys(sco, sco0, peer_address)),
+    ] + tables_inv_post(self, old.self)
+
+
+contract(
+    'bumble.controller:Controller.on_classic_connection_request',
+    prop='C06',
+    params=dict(self=Inst(CTRL_CLASSIC), peer_address=ADDR, link_type=IntRange(0, 2)),
+    ghost=SEND_GHOST,
+    ensures=classic_request_ensures,
+    ensures_names=['one-connection-request-event-for-the-peer', 'acl-placeholder-for-the-peer', 'other-acl-entries-untouched', 'sco-placeholder-for-the-peer', 'other-sco-entries-untouched'] + INV_POST_NAMES,
+    modifies=['self.classic_connections', 'self.sco_links'] + SEND_MOD,
+    inline=['Controller.public_address', 'Connection.__post_init__', 'HCI_AclDataPacketAssembler.__init__'],
+    native_setup=nat_fix,
+)
+
+
+def classic_complete_ensures(self, peer_address, status, ghost, old):
+    cl, cl0 = self.classic_connections, old.self.classic_connections
+    ok = status == SUCCESS
+    return [
+        # exactly one Connection Complete event, for that peer, with the given status
+        ghost.ccl == old.ghost.ccl + 1 and ghost.sent == old.ghost.sent + 1 and ghost.ccl_peer == peer_address and ghost.ccl_status == status,
+        # success: the entry of that peer now carries the handle reported to the host, which no entry of any table had before
+        implies(ok, mhas(cl, peer_address) and h_of(cl, peer_address) == ghost.ccl_handle and mget(cl, peer_address, 'peer_address') == peer_address),
+        implies(ok, 1 <= ghost.ccl_handle and ghost.ccl_handle <= MAX_HANDLE and conj(unused(old.self, ghost.ccl_handle))),
+        # an entry made by an earlier connection request / create connection keeps its role and addresses; a new one is central
+        implies(ok and mhas(cl0, peer_address), mget(cl, peer_address, 'role') == mget(cl0, peer_address, 'role') and mget(cl, peer_address, 'self_address') == mget(cl0, peer_address, 'self_address')),
+        implies(ok and not mhas(cl0, peer_address), mget(cl, peer_address, 'role') == CENTRAL and mget(cl, peer_address, 'self_address') == self._public_address and mget(cl, peer_address, 'transport') == BR_EDR),
+        implies(ok, others_unchanged(cl, cl0, peer_address) and no_new_keys(cl, cl0, peer_address)),
+        # failure: no live handle is reported and the table is untouched
+        implies(not ok, ghost.ccl_handle == 0 and others_unchanged(cl, cl0, peer_address) and no_new_keys(cl, cl0, peer_address) and iff(mhas(cl, peer_address), mhas(cl0, peer_address))),
+    ] + tables_inv_post(self, old.self)
+
+
+contract(
+    'bumble.controller:Controller.on_classic_connection_complete',
+    prop='C06',
+    params=dict(self=Inst(CTRL_CLASSIC), peer_address=ADDR, status=IntRange(0, 255)),
+    ghost=SEND_GHOST,
+    # (part of the table invariant) every BR/EDR connection is stored under its peer address
+    requires=lambda self: [all_keys(self.classic_connections, lambda k: mget(self.classic_connections, k, 'peer_address') == k)],
+    ensures=classic_complete_ensures,
+    ensures_names=['one-connection-complete-event-for-the-peer', 'entry-carries-the-reported-handle', 'handle-in-range-and-unused-in-every-table', 'existing-entry-keeps-role-and-address',
+                   'new-entry-is-central-under-own-bd-addr', 'other-entries-untouched', 'failure-reports-no-handle-and-changes-nothing'] + INV_POST_NAMES,
+    raises={StopIteration: lambda self, peer_address, ghost, old: [ghost.sent == old.ghost.sent, others_unchanged(self.classic_connections, old.self.classic_connections, peer_address)]},
+    modifies=['self.classic_connections'] + SEND_MOD,
+    uses=['bumble.controller:Controller.allocate_connection_handle'],
+    inline=['Controller.public_address', 'Connection.__post_init__', 'HCI_AclDataPacketAssembler.__init__'],
+    native_setup=nat_fix,
+)
+
+contract(
+    'bumble.controller:Controller.on_classic_disconnected',
+    prop='C06',
+    params=dict(self=C, peer_address=ADDR, reason=IntRange(0, 255)),
+    ghost=SEND_GHOST,
+    ensures=lambda self, peer_address, reason, ghost, old: [
+        # a disconnection is reported iff there was a connection to that peer, on its handle
+        ghost.dc == old.ghost.dc + (1 if mhas(old.self.classic_connections, peer_address) else 0) and ghost.sent - old.ghost.sent == ghost.dc - old.ghost.dc,
+        implies(mhas(old.self.classic_connections, peer_address), ghost.dc_handle == h_of(old.self.classic_connections, peer_address) and ghost.dc_reason == reason and ghost.dc_status == 0),
+        not mhas(self.classic_connections, peer_address),
+        others_unchanged(self.classic_connections, old.self.classic_connections, peer_address),
+        no_new_keys(self.classic_connections, old.self.classic_connections, peer_address),
+    ] + tables_inv_post(self, old.self),
+    ensures_names=['disconnection-event-iff-connected', 'event-names-the-connection', 'entry-removed', 'other-entries-untouched', 'no-entry-added'] + INV_POST_NAMES,
+    modifies=['self.classic_connections', 'ghost.sent', 'ghost.dc', 'ghost.dc_status', 'ghost.dc_handle', 'ghost.dc_reason'],
+    native_setup=nat_fix,
+)
+
+
+def sco_complete_ensures(self, peer_address, status, link_type, ghost, old):
+    sco, sco0 = self.sco_links, old.self.sco_links
+    ok = status == SUCCESS
+    return [
+        ghost.sync == old.ghost.sync + 1 and ghost.sent == old.ghost.sent + 1 and ghost.sync_peer == peer_address and ghost.sync_status == status,
+        implies(ok, mhas(sco, peer_address) and h_of(sco, peer_address) == ghost.sync_handle and mget(sco, peer_address, 'peer_address') == peer_address),
+        implies(ok, 1 <= ghost.sync_handle and ghost.sync_handle <= MAX_HANDLE and conj(unused(old.self, ghost.sync_handle))),
+        implies(ok, sco_others_unchanged(sco, sco0, peer_address) and no_new_keys(sco, sco0, peer_address)),
+        implies(not ok, ghost.sync_handle == 0 and sco_others_unchanged(sco, sco0, peer_address) and no_new_keys(sco, sco0, peer_address) and iff(mhas(sco, peer_address), mhas(sco0, peer_address))),
+    ] + tables_inv_post(self, old.self)
+
+
+contract(
+    'bumble.controller:Controller.on_classic_sco_connection_complete',
+    prop='C06',
+    params=dict(self=C, peer_address=ADDR, status=IntRange(0, 255), link_type=IntRange(0, 2)),
+    ghost=SEND_GHOST,
+    ensures=sco_complete_ensures,
+    ensures_names=['one-synchronous-connection-complete-event', 'entry-carries-the-reported-handle', 'handle-in-range-and-unused-in-every-table', 'other-entries-untouched',
+                   'failure-reports-no-handle-and-changes-nothing'] + INV_POST_NAMES,
+    raises={StopIteration: lambda self, peer_address, ghost, old: [ghost.sent == old.ghost.sent, sco_others_unchanged(self.sco_links, old.self.sco_links, peer_address)]},
+    modifies=['self.sco_links'] + SEND_MOD,
+    uses=['bumble.controller:Controller.allocate_connection_handle'],
+    native_setup=nat_fix,
+)
+
+contract(
+    'bumble.controller:Controller.on_le_cis_request',
+    prop='C06',
+    params=dict(self=C, connection=Inst(CONN_OBJ), cig_id=IntRange(0, 255), cis_id=IntRange(0, 255)),
+    ghost=SEND_GHOST,
+    # (part of the table invariant) every CIS link is stored under its handle
+    requires=lambda self: [all_keys(self.peripheral_cis_links, lambda k: h_of(self.peripheral_cis_links, k) == k)],
+    ensures=lambda self, connection, cig_id, cis_id, ghost, old: [
+        ghost.cisreq == old.ghost.cisreq + 1 and ghost.sent == old.ghost.sent + 1 and ghost.cisreq_acl_handle == connection.handle,
+        mhas(self.peripheral_cis_links, ghost.cisreq_handle) and h_of(self.peripheral_cis_links, ghost.cisreq_handle) == ghost.cisreq_handle,
+        1 <= ghost.cisreq_handle and ghost.cisreq_handle <= MAX_HANDLE and conj(unused(old.self, ghost.cisreq_handle)),
+        all_keys(old.self.peripheral_cis_links, lambda k: mhas(self.peripheral_cis_links, k) and h_of(self.peripheral_cis_links, k) == h_of(old.self.peripheral_cis_links, k)),
+    ] + tables_inv_post(self, old.self),
+    ensures_names=['one-cis-request-event-for-the-acl-connection', 'pending-cis-stored-under-its-handle', 'handle-in-range-and-unused-in-every-table', 'other-cis-entries-untouched'] + INV_POST_NAMES,
+    raises={StopIteration: lambda ghost, old: [ghost.sent == old.ghost.sent]},
+    modifies=['self.peripheral_cis_links'] + SEND_MOD,
+    uses=['bumble.controller:Controller.allocate_connection_handle'],
     native_setup=nat_fix,
 )
